@@ -91,8 +91,10 @@ class Walk:
         # before this property's oracle looks at it.
         user_action = op["op"] in ("add_node", "delete_node", "add_edge", "delete_edge", "swap", "attrs", "paint")
         if user_action and not getattr(self.oracle, "owns_atomicity", False) and not out.ok:
-            if C.canon_diff(pre, post) is not None:
+            d = C.canon_diff(pre, post)
+            if d is not None:
                 self.aborted = "nonatomic_refusal(C11)"
+                self.aborted_detail = {"op": {k: v for k, v in op.items() if k != "pixels"}, "exc": repr(out.exc), "diff": d}
                 return False
         if not getattr(self.oracle, "owns_history", False) and op["op"] in ("undo", "redo") and not out.ok:
             self.aborted = "undo_redo_raised(C01/C02)"
@@ -142,6 +144,9 @@ def run_walks(ctx, oracle_cls, *, n_walks: int, steps: int, profile: str, cfg_kw
             walk.oracle.finish()
         if walk.aborted:
             col.event(f"aborted:{walk.aborted}")
+            det = getattr(walk, "aborted_detail", None)
+            if det is not None and len(col.extra.setdefault("aborted_samples", [])) < 2:
+                col.extra["aborted_samples"].append(det)
         for tag, cnt in walk.world.excluded.items():
             col.exclude(tag, cnt)
         for bucket, msg in walk.failures:
